@@ -1,6 +1,7 @@
 package prop
 
 import (
+	"os"
 	"path/filepath"
 	"regexp"
 	"sort"
@@ -83,7 +84,7 @@ func Corpus() ([]CorpusCase, error) {
 	if corpusCache != nil {
 		return corpusCache, nil
 	}
-	files, _ := filepath.Glob("/repo/go/testdata/*.t")
+	files, _ := filepath.Glob(repoDir() + "/go/testdata/*.t")
 	sort.Strings(files)
 	var res []CorpusCase
 	for _, f := range files {
@@ -107,4 +108,13 @@ func Corpus() ([]CorpusCase, error) {
 	}
 	corpusCache = res
 	return res, nil
+}
+
+// repoDir is /repo unless a developer run points the harness at a scratch
+// worktree (bin/trymutant).
+func repoDir() string {
+	if d := os.Getenv("VERIF_REPO"); d != "" {
+		return d
+	}
+	return "/repo"
 }
